@@ -204,6 +204,32 @@ def run(tier, seed, replay=None):
     else:
         rep.violation("bitwise-rejected", {"gdl": bprog.raw_gdl, "errors": [l for l in rb["err"].split("\n") if "error" in l][:3]})
     shutil.rmtree(rb["dir"], ignore_errors=True)
+    # (T2a'') justification attributes read in a rule: the Silf header names, level by level, the glyph attributes that hold
+    # stretch, shrink, step and weight; the engine reads `justify.X` of a slot through those names. A fixed program with
+    # four different values per glyph class; the rule copies them to user attributes.
+    jprog = gen.Prog()
+    jprog.nglyphs = 20
+    jprog.font, _g, jprog.cmap = _ttf.simple_font(20)
+    jvals = {"cA": (41, 11, 2, 3), "cB": (70, 23, 5, 1)}
+    jprog.raw_gdl = ('#include "stddef.gdh"\ntable(glyph) ' + " ".join(
+        "%s = glyphid(%s) {justify.stretch = %dm; justify.shrink = %dm; justify.step = %dm; justify.weight = %d};" % ((c, "3..6" if c == "cA" else "7..10") + v)
+        for c, v in sorted(jvals.items())) + ' endtable;\n'
+        'table(pos) (cA cB) {user1 = justify.stretch; user2 = justify.shrink; user3 = justify.step; user4 = justify.weight}; endtable;\n')
+    rj = harness.compile_cases(build, work, [("justify_attrs", jprog)])[0]
+    if rj["rc"] == 0 and os.path.exists(os.path.join(rj["dir"], "out.ttf")):
+        fj = gr2.Face(os.path.join(rj["dir"], "out.ttf"))
+        sj = fj.shape([0x62, 0x66], user_attrs=4) if fj.ok() else None      # glyph 3 (cA), glyph 7 (cB)
+        fj.close()
+        stats["justify_attr_programs"] += 1
+        gotj = [s_["user"][:4] for s_ in sj] if sj else None
+        wantj = [list(jvals["cA"]), list(jvals["cB"])]
+        if gotj != wantj:
+            harness.save_case(rep, rj, "justify_attrs")
+            rep.violation("justify_attrs", {"gdl": jprog.raw_gdl, "text_glyphs": [3, 7], "engine_user1_to_user4": gotj, "the_rules_say": wantj,
+                                            "meaning": "a rule copies justify.stretch / shrink / step / weight of the slot's glyph to user1..user4; under libgraphite2 the values are not the ones the glyph table assigns (the Silf header names the wrong glyph attribute for one of them)"})
+    else:
+        rep.violation("justify_attrs-rejected", {"gdl": jprog.raw_gdl, "errors": [l for l in rj["err"].split("\n") if "error" in l][:3]})
+    shutil.rmtree(rj["dir"], ignore_errors=True)
     # (T2b) engine level: the Lean reference interpreter of the IR's rules (Grc.Eng.shape) against libgraphite2 on the compiled font
     import itertools
     import json as _json
